@@ -32,6 +32,15 @@ def gen(ctx, rng, per_solver):
             dtmin = dtmax * 10.0 ** (-rng.randint(6, 9))
             cases.append(ivpgen.base_case(0, solver, dim, t0, t0 + span, dtmin, dtmax, tol, rhs, y0, work=True,
                                           budget=3000000, max_items=2000000, min_first=(k % 2 == 1)))
+        # long easy stretches at a loose tolerance: the step cap, not the estimator, sets the work, and the controller
+        # keeps asking for more than the cap (what it does with the step then decides the work; round 8)
+        for k in range(3):
+            dim = rng.randint(1, 3)
+            dtmax = rng.uniform(0.05, 0.1)
+            span = rng.uniform(20.0, 40.0)
+            rhs, y0, lip = ivpgen.system(rng, dim, span, 0.0, kinds=["relax", "rest"])
+            cases.append(ivpgen.base_case(0, solver, dim, 0.0, span, dtmax * 1e-9, dtmax, 10.0 ** (-rng.uniform(3, 3.5)), rhs, y0,
+                                          work=True, budget=3000000, max_items=2000000))
         # hard starts: the first trial step is far too long for the tolerance (violent first rejections)
         for k in range(max(2, per_solver // 3)):
             dim = rng.randint(1, 3)
